@@ -95,13 +95,14 @@ type vCase struct {
 }
 
 type vMachine struct {
-	t     rec.TB
-	r     *rec.Rec
-	prop  string
-	c     *world.Chain
-	cs    *vCase
-	apps  []uint64
-	unsol map[string]sdk.Int // unsolicited transfers into vault custody per denom
+	forced []vOp // operations to generate next, queued by the generator itself
+	t      rec.TB
+	r      *rec.Rec
+	prop   string
+	c      *world.Chain
+	cs     *vCase
+	apps   []uint64
+	unsol  map[string]sdk.Int // unsolicited transfers into vault custody per denom
 	// per history statistics
 	okKinds   map[string]int
 	usersOn   map[int]map[int]bool // product -> users that created a vault there
@@ -373,6 +374,12 @@ func clampPos(i sdk.Int) sdk.Int {
 
 func (m *vMachine) genOp(rt *rapid.T, i int) vOp {
 	cfg := &m.cs.Cfg
+	if len(m.forced) > 0 {
+		// the follow-up an earlier generated operation asked for
+		op := m.forced[0]
+		m.forced = m.forced[1:]
+		return op
+	}
 	lbl := func(s string) string { return fmt.Sprintf("%s_%d", s, i) }
 	kinds := []string{"create", "create", "create", "deposit", "withdraw", "draw", "draw", "repay", "repay", "close", "depdraw", "intcalc", "block", "block", "price", "unsolicited", "smcreate", "smdeposit", "smwithdraw"}
 	if m.prop == "C03" {
